@@ -205,6 +205,7 @@ class Recorder:
             atoms = list(d["graph"].nodes)
             nodes.append({"node": node, "resid": int(d["resid"]), "bm": bool(d.get("backmap", False)), "key": str(d.get("template")),
                           "atoms": [int(a) for a in atoms], "names": [str(mm.molecule.nodes[a].get("atomname")) for a in atoms],
+                          "resname": str(d.get("resname")),
                           "position": None if d.get("position") is None else np.array(d["position"], float).tolist(),
                           "degree": int(mm.degree(node))})
         templates = {str(k): {str(n): np.array(v, float) for n, v in t.items()} for k, t in getattr(mm, "templates", {}).items()}
@@ -235,7 +236,8 @@ class Recorder:
         self.traces.append({"nodes": [{k: n[k] for k in ("resid", "bm", "key", "atoms", "names")} for n in cur["nodes"]],
                             "tnames": {k: sorted(t) for k, t in cur["templates"].items()},
                             "events": events, "raw": raws, "exception": cur.get("exception"),
-                            "info": [{"resid": n["resid"], "degree": n["degree"], "natoms": len(n["atoms"])} for n in cur["nodes"]]})
+                            "info": [{"resid": n["resid"], "degree": n["degree"], "natoms": len(n["atoms"]), "resname": n["resname"],
+                                      "has_vs": any(str(x).startswith("V") and len(str(x)) == 2 and str(x)[1].isdigit() for x in n["names"])} for n in cur["nodes"]]})
 
 
 def _differs(a, b):
@@ -261,6 +263,12 @@ def random_system(rng):
         while len(star["names"]) < 4:
             star = tu.random_residue(rng, "RC", nmax=5, with_vs=False)
         rtypes.append(star)
+    # ... and a residue with a virtual site (its template is re-assembled after the optimisation, which moves its centre)
+    if rng.random() < 0.6:
+        vsr = tu.random_residue(rng, "RV", nmax=5, with_vs=True)
+        while not vsr["vs"] or len(vsr["names"]) < 4:
+            vsr = tu.random_residue(rng, "RV", nmax=5, with_vs=True)
+        rtypes.append(vsr)
     moltypes, molecules = [], []
     for m in range(int(rng.integers(1, 3))):
         nres = int(rng.integers(1, 6))
@@ -311,7 +319,17 @@ def _gen_run(arg):
         kw["coordpath_meta"] = wd / "meta.gro"
     else:
         kw["box"] = box
-    out = {"seed": sd, "kind": kind, "fudge": fudge, "system": sysd, "traces": [], "exception": None, "stage": 1}
+    # half of the runs come with a build file giving predefined sizes ([ volumes ]) for some residue names: templates of such
+    # residues take another path through GenerateTemplates (size not computed from the template)
+    volumes = []
+    if rng.random() < 0.6:
+        for rn in sorted({rn for _, _, rn, _ in res}):
+            if rng.random() < (0.9 if rn == "RV" else 0.6):
+                volumes.append([rn, round(float(rng.uniform(0.3, 0.55)), 3)])
+    if volumes:
+        (wd / "sys.bld").write_text(tu.render_bld([("volumes", volumes)]))
+        kw["build"] = [wd / "sys.bld"]
+    out = {"seed": sd, "kind": kind, "fudge": fudge, "system": sysd, "volumes": volumes, "traces": [], "exception": None, "stage": 1}
     from polyply.src.gen_coords import gen_coords
     rec = Recorder(fudge)
     try:
@@ -348,7 +366,8 @@ def _gen_run(arg):
             (wd / "part.gro").write_text("\n".join([lines[0], "%5d" % len(keep)] + keep + [lines[-1]]) + "\n")
             rec = Recorder(fudge)
             try:
-                gen_coords(toppath=wd / "sys.top", outpath=wd / "out2.gro", name="verif", bfudge=fudge, coordpath=wd / "part.gro", build_res=[drop])
+                gen_coords(toppath=wd / "sys.top", outpath=wd / "out2.gro", name="verif", bfudge=fudge, coordpath=wd / "part.gro", build_res=[drop],
+                           **({"build": kw["build"]} if "build" in kw else {}))
                 out["stage"] = 2
             except tu.ItemTimeout:
                 raise
@@ -407,6 +426,32 @@ def validate(ck, traces, rots, name, expect_reject=False):
     if not expect_reject:
         ck.add_tlc(res)
     return rejected, badrot
+
+
+def binding_demo(ck, traces, rejected, rots, badrot):
+    okt = [t for i, t in enumerate(traces, 1) if i not in rejected and any(e["op"] == "place" for e in t["events"])][:3]
+    if not okt:
+        okt = [SYNTHETIC]       # misbehaving code: no recorded trace is acceptable; demonstrate on a hand-written valid trace
+    okr = [r for i, r in enumerate(rots, 1) if i not in badrot and r["lattice"]][:2] or [SYNTHETIC_ROT]
+    strip = lambda ts: json.loads(json.dumps([{k: t[k] for k in ("nodes", "tnames", "events")} for t in ts]))
+    r0, b0 = validate(ck, strip(okt), okr, "corrupt0", expect_reject=True)
+    if r0 or b0:
+        raise c.MachineryError("binding demonstration: uncorrupted records rejected (%s, %s)" % (r0, b0))
+    demo = strip(okt)
+    ev = next(e for e in demo[0]["events"] if e["op"] == "place")
+    ev["changed"] = ev["changed"][:-1] if len(ev["changed"]) > 1 else ev["changed"] + [10 ** 6]
+    rj, _ = validate(ck, demo, okr, "corrupt1", expect_reject=True)
+    demo2 = strip(okt)
+    ev2 = next(e for e in demo2[0]["events"] if e["op"] == "place")
+    ev2["rigid"] = False
+    rj2, _ = validate(ck, demo2, okr, "corrupt2", expect_reject=True)
+    rots3 = json.loads(json.dumps(okr))
+    rots3[0]["m"][0][0] = 1 - rots3[0]["m"][0][0]
+    _, br3 = validate(ck, strip(okt), rots3, "corrupt3", expect_reject=True)
+    if list(rj) != [1] or list(rj2) != [1] or br3 != [1]:
+        raise c.MachineryError("binding demonstration failed: corrupted records accepted (%s, %s, %s)" % (rj, rj2, br3))
+    ck.extra["binding_demo"] = ("a Place event with one atom removed from its changed set, a Place event with rigid=false and a lattice rotation sample "
+                                "with one altered matrix entry are each rejected by BmTrace")
 
 
 SYNTHETIC = {"nodes": [{"resid": 1, "bm": True, "key": "k", "atoms": [0, 1], "names": ["A", "B"]}], "tnames": {"k": ["A", "B"]},
@@ -490,7 +535,14 @@ def run(tier):
     rots = rotation_samples(np.random.default_rng(sd + 5), 300 if quick else 6000)
     rejected, badrot = validate(ck, traces, rots, "traces")
     ck.traces += len(traces) - len(rejected)
-    stats = {"place": 0, "skip": 0, "chiral": 0, "neigh": {}, "built_neigh": 0, "stage2": 0}
+    stats = {"place": 0, "skip": 0, "chiral": 0, "neigh": {}, "built_neigh": 0, "stage2": 0, "vs_predef": 0, "predef": 0}
+    for t, (item_, out_) in zip(traces, owners):
+        predef = {v[0] for v in out_.get("volumes", [])}
+        for ev in t["events"]:
+            if ev["op"] == "place" and ev["node"]:
+                inf = t["info"][ev["node"] - 1]
+                stats["predef"] += 1 if inf["resname"] in predef else 0
+                stats["vs_predef"] += 1 if inf["resname"] in predef and inf["has_vs"] else 0
     for t in traces:
         for ev, raw in zip(t["events"], t["raw"]):
             if ev["op"] == "place":
@@ -507,9 +559,11 @@ def run(tier):
     ck.actions["Skip(real)"] = stats["skip"]
     ck.extra["trace_stats"] = {"place_events": stats["place"], "skipped_residues": stats["skip"], "chiral_templates_placed": stats["chiral"],
                                "bonded_neighbours_histogram": {str(k): v for k, v in sorted(stats["neigh"].items())},
-                               "placements_with_built_neighbours": stats["built_neigh"], "molecule_traces_from_-c_-res_runs": stats["stage2"],
+                               "placements_with_built_neighbours": stats["built_neigh"],
+                               "placements_of_residues_with_predefined_volume": stats["predef"],
+                               "placements_of_virtual_site_residues_with_predefined_volume": stats["vs_predef"], "molecule_traces_from_-c_-res_runs": stats["stage2"],
                                "rotate_xyz_samples": len(rots)}
-    vacuous = stats["place"] == 0 or stats["chiral"] == 0 or stats["skip"] == 0 or stats["built_neigh"] == 0
+    vacuous = stats["place"] == 0 or stats["chiral"] == 0 or stats["skip"] == 0 or stats["built_neigh"] == 0 or stats["vs_predef"] == 0
     tsample = next((t for t in traces if len(t["events"]) > 2), traces[0])
     ck.sample({"I->S trace": {"nodes": tsample["nodes"], "events": tsample["events"][:3], "monitor raw": tsample["raw"][:2]}})
     for tid, matched in sorted(rejected.items()):
@@ -528,29 +582,12 @@ def run(tier):
         raise c.MachineryError("vacuous I->S drivers: %s" % stats)
 
     ck.stage("binding demonstration")
-    okt = [t for i, t in enumerate(traces, 1) if i not in rejected and any(e["op"] == "place" for e in t["events"])][:3]
-    if not okt:
-        okt = [SYNTHETIC]       # misbehaving code: no recorded trace is acceptable; demonstrate on a hand-written valid trace
-    okr = [r for i, r in enumerate(rots, 1) if i not in badrot and r["lattice"]][:2] or [SYNTHETIC_ROT]
-    strip = lambda ts: json.loads(json.dumps([{k: t[k] for k in ("nodes", "tnames", "events")} for t in ts]))
-    r0, b0 = validate(ck, strip(okt), okr, "corrupt0", expect_reject=True)
-    if r0 or b0:
-        raise c.MachineryError("binding demonstration: uncorrupted records rejected (%s, %s)" % (r0, b0))
-    demo = strip(okt)
-    ev = next(e for e in demo[0]["events"] if e["op"] == "place")
-    ev["changed"] = ev["changed"][:-1] if len(ev["changed"]) > 1 else ev["changed"] + [10 ** 6]
-    rj, _ = validate(ck, demo, okr, "corrupt1", expect_reject=True)
-    demo2 = strip(okt)
-    ev2 = next(e for e in demo2[0]["events"] if e["op"] == "place")
-    ev2["rigid"] = False
-    rj2, _ = validate(ck, demo2, okr, "corrupt2", expect_reject=True)
-    rots3 = json.loads(json.dumps(okr))
-    rots3[0]["m"][0][0] = 1 - rots3[0]["m"][0][0]
-    _, br3 = validate(ck, strip(okt), rots3, "corrupt3", expect_reject=True)
-    if list(rj) != [1] or list(rj2) != [1] or br3 != [1]:
-        raise c.MachineryError("binding demonstration failed: corrupted records accepted (%s, %s, %s)" % (rj, rj2, br3))
-    ck.extra["binding_demo"] = ("a Place event with one atom removed from its changed set, a Place event with rigid=false and a lattice rotation sample "
-                                "with one altered matrix entry are each rejected by BmTrace")
+    try:
+        binding_demo(ck, traces, rejected, rots, badrot)
+    except c.MachineryError as exc:
+        if not ck.violations:
+            raise
+        ck.note("binding demonstration not conclusive on code that already violates the property: %s" % str(exc)[:300])
     ck.exhaustive = True
     return ck.finish()
 
